@@ -14,7 +14,9 @@ SeqVals  == { V(s) : s \in {<<>>, <<0>>, <<1>>, <<1, 0>>, <<1, 1>>, <<1, 2>>, <<
 BoolVals == { V(<<0>>), V(<<1>>) }
 To1Vals  == { Ids(<<>>), Ids(<<"a">>), Ids(<<"b">>) }
 ToNVals  == { Ids(<<>>), Ids(<<"a">>), Ids(<<"a", "b">>), Ids(<<"b", "a">>), Ids(<<"a", "c">>), Ids(<<"a", "b", "c">>),
-              Ids(<<"c", "d">>), Ids(<<"d", "c">>) }   \* (the driver's ids make {a, b} and {c, d} join to the same text)
+              Ids(<<"c", "d">>), Ids(<<"d", "c">>),
+              \* lists that repeat an id (as long as another list, all of their ids among the other's)
+              Ids(<<"a", "a", "b">>), Ids(<<"b", "b">>), Ids(<<"c", "c", "c">>) }   \* (the driver's ids make {a, b} and {c, d} join to the same text)
 Ops == {"=", "!=", "<", "<=", ">", ">=", "in", "has", "nope"}
 
 ASSUME \A cls \in {"num", "seq"} : LET U == IF cls = "num" THEN NumVals ELSE SeqVals IN
